@@ -4,7 +4,7 @@
        IsEv(name) /\ <logged fields bound> /\ SpecAction(args)
    Every event is logged, so the search is linear; all invariants of the specification are evaluated
    in every state of the trace-induced behaviour.  Executions are concatenated with Reset events. *)
-EXTENDS TpMsg, Json, IOUtils
+EXTENDS TpBcast, Json, IOUtils
 
 Tr == ndJsonDeserialize(IOEnv.TRACE)
 
@@ -12,47 +12,77 @@ Procs == Workers \cup (100..140)
 VARIABLES l,         \* next trace line to consume
           lastRan,   \* [Procs -> index into ran of the latest callback entered on that thread, 0 = none]
           ucb        \* user messages whose harness callback has been observed
-tvars == <<msgVars, l, lastRan, ucb>>
+tvars == <<msgVars, bVars, l, lastRan, ucb>>
 
 IsEv(e) == l <= Len(Tr) /\ Tr[l].e = e /\ l' = l + 1
 E == Tr[l]
 
-TInit == /\ InitMsg("RUNNING") /\ l = 1
+BInit0 == /\ rec = << >> /\ inProxy = [p \in Procs |-> 0]
+          /\ pend = [p \in Procs |-> NoCall] /\ plain = << >>
+TInit == /\ InitMsg("RUNNING") /\ BInit0 /\ l = 1
          /\ lastRan = [p \in Procs |-> 0] /\ ucb = {}
 
 NoteRan == lastRan' = IF Len(ran') > Len(ran) THEN [lastRan EXCEPT ![ran'[Len(ran')].on] = Len(ran')] ELSE lastRan
 Keep == UNCHANGED <<lastRan, ucb>>
+KeepB == UNCHANGED bVars
+KeepM == UNCHANGED <<msgVars, lastRan, ucb>>
 
 InstOfMsg(m) == CHOOSE i \in DOMAIN inst : inst[i].u = 1000 + m
 
-TEnter     == IsEv("send.enter") /\ Enter(E.i, E.t, E.d, E.f, "?", E.u) /\ Keep
-TDirect    == IsEv("send.direct") /\ Direct(E.i, E.v) /\ NoteRan /\ UNCHANGED ucb
-TRunning   == IsEv("send.running") /\ ReadState(E.i, TRUE) /\ Keep
-TNotRun    == IsEv("send.notrunning") /\ ReadState(E.i, FALSE) /\ Keep
-TWrite     == IsEv("wr") /\ Keep
+TEnter     == IsEv("send.enter") /\ Enter(E.i, E.t, E.d, E.f, "?", E.u, E.s) /\ Keep
+              /\ NoteEnter(E.i, E.t, E.u) /\ UNCHANGED <<inProxy, pend, plain>>
+TDirect    == IsEv("send.direct") /\ Direct(E.i, E.v) /\ NoteRan /\ UNCHANGED ucb /\ KeepB
+TRunning   == IsEv("send.running") /\ ReadState(E.i, TRUE) /\ Keep /\ KeepB
+TNotRun    == IsEv("send.notrunning") /\ ReadState(E.i, FALSE) /\ Keep /\ KeepB
+TWrite     == IsEv("wr") /\ Keep /\ KeepB
               /\ IF E.rc = 0 THEN WriteOk(E.i, E.c) ELSE WriteFail(E.i, E.rc, E.inj = 1)
-TReturn    == IsEv("ret.send") /\ Keep
+TReturn    == IsEv("ret.send") /\ Keep /\ KeepB
               /\ \E i \in DOMAIN inst : inst[i].u = 1000 + E.m
               /\ Return(InstOfMsg(E.m), E.rc)
-TRead      == IsEv("rd") /\ Keep /\ Read(E.t, E.q, E.cnt)
+TRead      == IsEv("rd") /\ Keep /\ KeepB /\ Read(E.t, E.q, E.cnt)
               /\ \A k \in 1..E.cnt : batch'[E.t][k][1] = E.is[k]       \* rig's shadow FIFO agrees
-TRun       == IsEv("recv.run") /\ UNCHANGED ucb
+TRun       == IsEv("recv.run") /\ UNCHANGED ucb /\ KeepB
               /\ batch[E.t] # << >>
               /\ LET h == Head(batch[E.t]) IN
                     h[2] = E.q /\ inst[h[1]].u = E.u /\ inst[h[1]].c = E.c    \* the packet at the head, nothing else
               /\ Run(E.t) /\ NoteRan
 (* the harness' own callback reports who it is: must be the callback the spec just started there *)
-TUserCb    == IsEv("cb") /\ UNCHANGED <<msgVars, lastRan>>
+TUserCb    == IsEv("cb") /\ UNCHANGED <<msgVars, lastRan>> /\ KeepB
               /\ lastRan[E.t] # 0
               /\ LET r == ran[lastRan[E.t]] IN
                     /\ inst[r.i].u = 1000 + E.m /\ r.arg = E.arg /\ r.on = E.t
                     /\ r.how = "queued" => E.cur = E.t
               /\ E.m \notin ucb /\ ucb' = ucb \cup {E.m}
-TQuiesce   == IsEv("quiesce") /\ Drained /\ C05Safety /\ UNCHANGED <<msgVars, lastRan, ucb>>
+TQuiesce   == IsEv("quiesce") /\ Drained /\ C05Safety /\ AllCompleted /\ C10Inv /\ UNCHANGED <<msgVars, lastRan, ucb>> /\ KeepB
 TReset     == IsEv("Reset") /\ ResetMsg("RUNNING") /\ lastRan' = [p \in Procs |-> 0] /\ ucb' = {}
+              /\ rec' = << >> /\ inProxy' = [p \in Procs |-> 0] /\ pend' = [p \in Procs |-> NoCall] /\ plain' = << >>
+
+(* ---- broadcasts (TpBcast) ---- *)
+TCallB     == IsEv("call.bsend") /\ Call(E.t, "bsend", E.m, E.f) /\ KeepM
+TCallCb    == IsEv("call.cbsend") /\ Call(E.t, "cbsend", E.m, E.f) /\ KeepM
+TRecInit   == (IsEv("bsend.init") \/ IsEv("cbsend.init")) /\ RecInit(E.a, E.t, E.v) /\ KeepM
+TProxy     == (IsEv("sync.proxy") \/ IsEv("obo.proxy")) /\ KeepM
+              /\ lastRan[E.t] # 0 /\ ProxyBegin(E.t, E.b, ran[lastRan[E.t]].i)
+              /\ rec[E.b].kind = (IF Tr[l].e = "obo.proxy" THEN "obo" ELSE rec[E.b].kind)
+              /\ (Tr[l].e = "sync.proxy" => rec[E.b].kind \in {"sync", "cb"})
+TOboCbDone == IsEv("obo.cbdone") /\ OboCbDone(E.t, E.b) /\ KeepM
+TBcbBegin  == IsEv("bcb.begin") /\ UCbBegin(E.t, E.arg, E.m) /\ KeepM
+              /\ (E.cur # -1 => E.cur = E.t)
+TBcbEnd    == IsEv("bcb.end") /\ UCbEnd(E.t, E.arg, E.m) /\ KeepM
+TDec       == IsEv("dec.locked") /\ Dec(E.t, E.a, E.v) /\ KeepM
+TWait      == (IsEv("bsend.selfdec") \/ IsEv("bsend.wait")) /\ WaitRead(E.t, E.a, E.v) /\ KeepM
+TSyncLeave == IsEv("bsend.return") /\ SyncLeave(E.t, E.a) /\ KeepM
+TRetB      == IsEv("ret.bsend") /\ RetBsend(E.t, E.m, E.rc, E.sent, E.err) /\ KeepM
+TDonePost  == (IsEv("dec.postdone") \/ IsEv("obo.finish")) /\ DonePost(E.t, IF Tr[l].e = "dec.postdone" THEN E.a ELSE E.b) /\ KeepM
+TDoneBegin == IsEv("done.begin") /\ DoneBegin(E.t, E.b) /\ KeepM
+TUDone     == IsEv("done") /\ (UDone(E.cur, E.arg, E.m, E.sent, E.err) \/ UDonePlain(E.cur, E.arg, E.m, E.sent, E.err)) /\ KeepM
+TDoneFree  == IsEv("done.free") /\ DoneFree(E.t, E.b) /\ KeepM
+TRetCb     == IsEv("ret.cbsend") /\ RetCbsend(E.t, E.m, E.rc) /\ KeepM
 
 TNext == \/ TEnter \/ TDirect \/ TRunning \/ TNotRun \/ TWrite \/ TReturn
          \/ TRead \/ TRun \/ TUserCb \/ TQuiesce \/ TReset
+         \/ TCallB \/ TCallCb \/ TRecInit \/ TProxy \/ TBcbBegin \/ TBcbEnd \/ TDec \/ TWait \/ TSyncLeave
+         \/ TOboCbDone \/ TRetB \/ TDonePost \/ TDoneBegin \/ TUDone \/ TDoneFree \/ TRetCb
 TSpec == TInit /\ [][TNext]_tvars
 
 Accepted == IF TLCGet("stats").diameter - 1 = Len(Tr) THEN TRUE
